@@ -489,6 +489,18 @@ Proof.
     unfold survives in H0. destruct (RC c0) eqn:E; try congruence; cbn [nth]; apply IH; assumption.
 Qed.
 
+(** a call is answered alike before main, from main after any calls made before main, and in a process that makes no other call *)
+Lemma run_process_phase (pre h t : list call) (c : call) : List.Forall survives pre -> List.Forall survives h ->
+  nth (List.length pre + List.length h) (run_process ROps I MC pre (h ++ c :: t)%list) Exit = RC c /\
+  nth (List.length h) (run_process ROps I MC (h ++ c :: t)%list pre) Exit = RC c /\
+  run_process ROps I MC [c] [] = [RC c].
+Proof.
+  intros Hp Hh. unfold run_process. repeat split.
+  - rewrite app_assoc, <- app_length. apply run_session_history. apply Forall_app; split; assumption.
+  - rewrite <- app_assoc. cbn [app]. apply run_session_history; assumption.
+  - cbn. destruct (RC c); reflexivity.
+Qed.
+
 (** every call of a history that does not terminate the process is answered *)
 Lemma run_session_length (cs : list call) : List.Forall survives cs -> List.length (RS cs) = List.length cs.
 Proof.
